@@ -367,13 +367,17 @@ use crate::ir::OpKind;
 /// magnitudes of the dual numbers, results beyond the generator's `max_abs` are filtered by the caller)
 pub fn in_wide_domain(op: &OpKind, operands: &[&T], lo: f64, hi: f64, exp_max: f64) -> bool {
     use OpKind::*;
-    let rng = |t: &T, lo: f64, hi: f64| t.vals.iter().all(|x| x.v >= lo && x.v <= hi);
-    let absrng = |t: &T, lo: f64, hi: f64| t.vals.iter().all(|x| x.v.abs() >= lo && x.v.abs() <= hi);
+    // arguments of functions with a singularity at 0 must be well separated from it RELATIVE TO THEIR OWN NOISE
+    // SCALE (the magnitude of the terms they were computed from): ln(softmax of one element) is 0 up to rounding,
+    // and its reciprocal is decided by the last bit of a quotient
+    let cond = if exp_max < 50.0 { 1e-2 } else { 1e-6 };
+    let rng = |t: &T, lo: f64, hi: f64| t.vals.iter().all(|x| x.v >= lo && x.v <= hi && x.v.abs() >= cond * x.vm);
+    let absrng = |t: &T, lo: f64, hi: f64| t.vals.iter().all(|x| x.v.abs() >= lo && x.v.abs() <= hi && (lo == 0.0 || x.v.abs() >= cond * x.vm));
     match op {
         Div => absrng(operands[1], lo, hi),
         Recip => absrng(operands[0], lo, hi),
         Ln => rng(operands[0], lo, hi),
-        Exp | Softmax | Sigmoid | ActSoftmax | ActSigmoid => rng(operands[0], -exp_max, exp_max),
+        Exp | Softmax | Sigmoid | ActSoftmax | ActSigmoid => operands[0].vals.iter().all(|x| x.v >= -exp_max && x.v <= exp_max),
         Powf(e) => {
             if *e == e.trunc() && *e >= 1.0 {
                 absrng(operands[0], 0.0, hi.powf(0.25))
